@@ -1319,8 +1319,32 @@ func (data *Data) updatePtStatus(db string, ptId uint32, nodeId uint64, status P
 	}
 	if status == Online && config.GetHaPolicy() == config.Replication {
 		data.nextSubHealth(db, pi.RGID, dbPtView)
+		data.takeOverStrandedMaster(db, pi, dbPtView)
 	}
 	data.PtView[db] = dbPtView
+}
+
+// takeOverStrandedMaster makes the partition that has just come online the master of its replica group if the
+// current master partition is offline on a node that is not alive. The master is otherwise only re-selected
+// while the failed event of its node is handled; when no other member is online at that moment the election
+// gives up and nobody retries it, so the group would stay without a usable master until the failed node returns.
+func (data *Data) takeOverStrandedMaster(db string, pi *PtInfo, dbPtView DBPtInfos) {
+	rgs, ok := data.ReplicaGroups[db]
+	if !ok || pi.RGID >= uint32(len(rgs)) {
+		return
+	}
+	rg := &rgs[pi.RGID]
+	if rg.Status == UnFull || rg.MasterPtID == pi.PtId || !rg.hasPt(pi.PtId) || rg.MasterPtID >= uint32(len(dbPtView)) {
+		return
+	}
+	master := &dbPtView[rg.MasterPtID]
+	if master.Status == Online || data.DataNodeAlive(master.Owner.NodeID) {
+		return
+	}
+	DataLogger.Info("master pt is offline on a failed node, online pt takes over", zap.String("db", db), zap.Uint32("rgId", rg.ID),
+		zap.Uint32("oldMaster", rg.MasterPtID), zap.Uint32("newMaster", pi.PtId))
+	rg.Peers = rg.GenerateNewPeer(pi.PtId)
+	rg.MasterPtID = pi.PtId
 }
 
 func (data *Data) nextSubHealth(db string, rgId uint32, dbPtView DBPtInfos) {
